@@ -100,9 +100,13 @@ type WorldOpts struct {
 	MaxTxs      int  // per block, default 4
 	NoSlash     bool // do not generate double-signers (open finding exclusion)
 	NoParams    bool // never generate parameter changes
+	// CommitteeParamWeight > 0 adds changes of MaxCommitteeSize / MaximumDelegatesPerCommittee to the parameter mix
+	// (weight relative to the 16 staking parameter slots)
+	CommitteeParamWeight int
 	// NoDelegateRestake: a key that ever was a member of the own committee never stakes again as a delegate (exclusion of
 	// the input class of open finding KF-C12-slash-delegate-tallies); OnExclude is called whenever that changes a draw.
 	NoDelegateRestake bool
+	NoDaoZero         bool // never set gov/daoRewardPercentage to 0 (open finding KF-C12-dao-percent-zero)
 	OnExclude         func(id string)
 	MutateGen         func(*fsm.GenesisState)
 }
@@ -599,9 +603,10 @@ func (w *World) StakingParamChange() ParamChange {
 	vp := w.Params.Validator
 	u := func(key string, v uint64) ParamChange { return ParamChange{Space: fsm.ParamSpaceVal, Key: key, U: v} }
 	pick := func(label string, vs ...uint64) uint64 { return vs[w.Src.Int(label, 0, len(vs)-1)] }
-	switch w.Src.Int("param", 0, 15) {
+	switch w.Src.Int("param", 0, 15+w.Opts.CommitteeParamWeight) {
 	case 0, 1:
-		return u(fsm.ParamMinimumStakeForValidators, pick("minv", 0, 2, 5, 10, vp.MinimumStakeForValidators+1, 150, min(w.Opts.PillarStake, 5000)))
+		// never above the pillars' stake: they keep the own committee non-empty
+		return u(fsm.ParamMinimumStakeForValidators, min(w.Opts.PillarStake, pick("minv", 0, 2, 5, 10, vp.MinimumStakeForValidators+1, 150, 5000)))
 	case 2:
 		return u(fsm.ParamMinimumStakeForDelegates, pick("mind", 0, 2, 5, 10, vp.MinimumStakeForDelegates+1, 150))
 	case 3, 4:
@@ -623,10 +628,26 @@ func (w *World) StakingParamChange() ParamChange {
 	case 13:
 		return u(fsm.ParamNonSignWindow, pick("nsw", max(vp.MaxNonSign, 1), 3, 4, 6))
 	case 14:
+		if w.Src.Int("gov?", 0, 1) == 0 {
+			v := pick("daopct", 0, 0, 5, 50, 100)
+			if v == 0 && w.Opts.NoDaoZero {
+				v = 5
+				if w.Opts.OnExclude != nil {
+					w.Opts.OnExclude("KF-C12-dao-percent-zero")
+				}
+			}
+			return ParamChange{Space: fsm.ParamSpaceGov, Key: fsm.ParamDAORewardPercentage, U: v}
+		}
 		return u(fsm.ParamEarlyWithdrawalPenalty, pick("ewp", 0, 20, 100))
-	default:
+	case 15:
 		return ParamChange{Space: fsm.ParamSpaceCons, Key: fsm.ParamProtocolVersion, IsString: true,
 			S: fsm.NewProtocolVersion(w.C.Height()+uint64(w.Src.Int("pvh", 1, 4)), 2)}
+	default: // committee shape (C13): caps around the current population size
+		n := uint64(len(w.ValAddrs))
+		if w.Src.Int("capkind", 0, 2) == 0 {
+			return u(fsm.ParamMaximumDelegatesPerCommittee, pick("maxd", 0, 1, 2, 3, n))
+		}
+		return u(fsm.ParamMaxCommitteeSize, pick("maxs", 1, 2, 3, max(n/2, 1), max(n, 2)-1, n+1, 100))
 	}
 }
 
